@@ -461,7 +461,7 @@ func scDiskStall(d *Driver) {
 		if pct(d.r, 50) && len(d.c.Nodes[victim].AppendQ) > 0 {
 			d.c.Do(Step{Act: "CrashInAppend", Node: victim, K: uint64(d.r.Intn(2))})
 		} else {
-			d.c.Do(Step{Act: "Crash", Node: victim})
+			d.c.Do(Step{Act: "Crash", Node: victim, Ok: pct(d.r, 70)})
 		}
 		d.unfreeze()
 		d.with(p, 10+d.r.Intn(20))
@@ -724,7 +724,7 @@ func scCrashPoints(d *Driver) {
 		if len(v.AppendQ) > 0 && pct(d.r, 50) {
 			d.c.Do(Step{Act: "CrashInAppend", Node: v.ID, K: uint64(d.r.Intn(2))})
 		} else {
-			d.c.Do(Step{Act: "Crash", Node: v.ID})
+			d.c.Do(Step{Act: "Crash", Node: v.ID, Ok: pct(d.r, 70)})
 		}
 		p := calm
 		p.Dup, p.Tick, p.Campaign = 6, 15, 1
